@@ -81,7 +81,7 @@ func c09Gen(r *Rand, tier string, emit func(op any)) {
 		}
 	}
 	for i := 0; i < n; i++ {
-		cfg := c09Cfg{Base: Pick(r, []string{"obs", "io", "io", "bws"}), Wrap: []string{}}
+		cfg := c09Cfg{Base: Pick(r, []string{"obs", "io", "io", "bws", "bwsraw"}), Wrap: []string{}}
 		nw := r.Intn(5)
 		for j := 0; j < nw; j++ {
 			w := Pick(r, c09Wraps)
@@ -131,8 +131,9 @@ type c09Sink struct {
 	syncs int
 }
 
-func (s *c09Sink) Write(p []byte) (int, error) { s.n += len(p); return len(p), nil }
-func (s *c09Sink) Sync() error                 { s.syncs++; return nil }
+// Write and Sync touch the same words, so a Sync that overlaps a Write (or another Sync) is a race report as well.
+func (s *c09Sink) Write(p []byte) (int, error) { s.n += len(p); s.syncs += 0; return len(p), nil }
+func (s *c09Sink) Sync() error                 { s.syncs++; s.n += 0; return nil }
 
 func c09Build(op *c09Op) *c09World {
 	w := &c09World{al: zap.NewAtomicLevelAt(zapcore.DebugLevel), sink: &c09Sink{}, min: -1}
@@ -143,6 +144,12 @@ func c09Build(op *c09Op) *c09World {
 	switch op.Cfg.Base {
 	case "io":
 		core = zapcore.NewTee(zapcore.NewCore(zapcore.NewJSONEncoder(encCfg), zapcore.Lock(w.sink), w.al), obsCore)
+	case "bwsraw":
+		// BufferedWriteSyncer directly over the unsynchronised sink: its own mutex is all that serialises the destination
+		// ("You don't need to use zapcore.Lock for WriteSyncers with BufferedWriteSyncer"); a small buffer and a short
+		// flush interval make Write-overflow flushes, ticks and explicit Syncs all reach the sink
+		w.bws = &zapcore.BufferedWriteSyncer{WS: w.sink, Size: 256, FlushInterval: 200 * time.Microsecond}
+		core = zapcore.NewTee(zapcore.NewCore(zapcore.NewJSONEncoder(encCfg), w.bws, w.al), obsCore)
 	case "bws":
 		w.bws = &zapcore.BufferedWriteSyncer{WS: zapcore.Lock(w.sink), Size: 512, FlushInterval: time.Millisecond}
 		core = zapcore.NewTee(zapcore.NewCore(zapcore.NewJSONEncoder(encCfg), w.bws, w.al), obsCore)
